@@ -390,7 +390,7 @@ class Run:
             # generator can produce): identifiers are unique per connection only
             from vf.checks.c16 import ScriptedRandom
             start = cfg.get("hbh_start", 0x00777000)
-            helpers.random = ScriptedRandom(real_random, lambda a, b: start if (a, b) == (1, 0xffffffff) else None)
+            helpers.random = ScriptedRandom(real_random, lambda a, b: start if a in (0, 1) and b == 0xffffffff else None)
             self.cov["aligned_hbh_cases"] = self.cov.get("aligned_hbh_cases", 0) + 1
         try:
             c = Case(self, cfg, callers, seed)
